@@ -22,6 +22,8 @@ def populate(t, rng, nbulk):
     for n, (data, hs) in samples.per_handler().items():
         t.add_file("t/one/" + n, data, mtime_ns=1_650_000_000_000_000_000)
     t.add_file("t/one/clean.gz", fc.gz(5))
+    t.add_file("t/one64/lib64.gz", fc.gz(1700000064))
+    t.add_file("t/one64/lib64.a", fc.ar([("w.o/", 1700000064, 6, 4, 100644, b"sixty-four")]))
     t.add_file("t/one/bad.gz", b"not gzip")
     t.add_file("t/one/short.gz", b"\x1f\x8b")
     t.add_file("t/one/trunc.a", fc.ar([("x.o/", 1700000000, 7, 8, 100644, b"abcdef")])[:-3])
@@ -301,7 +303,9 @@ def run(ctx):
                 fail("parallel-totals-differ", "%s: exit %d summary %s; serial: exit %d summary %s" % (case, rc, summ, rrc, rsum), case)
             table.append({"case": case, "exit": rc, "summary": summ})
     # ---- order, repetition and overlap of the path arguments: same final state; same totals when the arguments do not overlap
-    arg_sets = [(("t/one", "t/two", "t/bulk"), True), (("t/one", "t/two", "t/does-not-exist", "t/bulk"), True), (("t/bulk", "t/two", "t/one"), True), (("t/two", "t/one", "t/bulk", "t/link-to-file.gz"), True),
+    # (t/one64 is a sibling of t/one whose name merely begins with the same characters)
+    arg_sets = [(("t/one", "t/one64", "t/two", "t/bulk"), True), (("t/one", "t/two", "t/does-not-exist", "t/bulk", "t/one64"), True), (("t/bulk", "t/two", "t/one", "t/one64"), True),
+                (("t/two", "t/one64", "t/one", "t/bulk", "t/link-to-file.gz"), True),
                 (("t", "t"), False), (("t", "t/one"), False), (("t/one", "t", "t/two/deeper"), False), (("t/one/g.gz", "t/one", "t"), False)]
     base_parts = None
     for rels, disjoint in arg_sets:
